@@ -139,7 +139,8 @@ public:
   {
     resize(bufferEnd - bufferStart + size);
     Memory::copy(bufferEnd - size, data, size);
-    *bufferEnd = 0;
+    if(buffer)
+      *bufferEnd = 0;
   }
 
   void append(const Buffer& data)
@@ -147,7 +148,8 @@ public:
     usize size = data.bufferEnd - data.bufferStart;
     resize(bufferEnd - bufferStart + size);
     Memory::copy(bufferEnd - size, data.bufferStart, size);
-    *bufferEnd = 0;
+    if(buffer)
+      *bufferEnd = 0;
   }
 
   void resize(usize size)
@@ -198,7 +200,8 @@ public:
       bufferStart = bufferEnd = buffer ? buffer : (byte*)&_capacity;
     else
       bufferEnd -= size;
-    *bufferEnd = 0;
+    if(buffer)
+      *bufferEnd = 0;
   }
 
   usize size() const {return bufferEnd - bufferStart;}
